@@ -16,29 +16,25 @@ PATCH = "--orig" not in sys.argv
 import workflows.context  # package first (does not import events)
 if PATCH:
     load_patched("workflows.context.utils", f"{W}/context/utils.py", [(
-'''    module_path = qualified_name.rsplit(".", 1)
-    try:
-        module = import_module(module_path[0])
-        return getattr(module, module_path[1])
+'''    except ImportError as e:
+        raise ImportError(f"Failed to import module {module_path[0]}: {e}")
 ''',
-'''    module_path = qualified_name.rsplit(".", 1)
-    # a nested class is written as "pkg.mod.Outer.Inner": import the longest importable
-    # prefix and walk the remaining attributes
-    parts = qualified_name.split(".")
-    for i in range(len(parts) - 1, 1, -1):
-        try:
-            obj = import_module(".".join(parts[:i]))
-        except ImportError:
-            continue
-        try:
-            for name in parts[i:]:
-                obj = getattr(obj, name)
-        except AttributeError:
-            break
-        return obj
-    try:
-        module = import_module(module_path[0])
-        return getattr(module, module_path[1])
+'''    except ImportError as e:
+        # "pkg.mod.Outer.Inner" names a nested class (written from __qualname__): import the
+        # longest importable prefix and resolve the remaining names as attributes
+        parts = qualified_name.split(".")
+        for i in range(len(parts) - 2, 0, -1):
+            try:
+                obj = import_module(".".join(parts[:i]))
+            except ImportError:
+                continue
+            try:
+                for name in parts[i:]:
+                    obj = getattr(obj, name)
+                return obj
+            except AttributeError:
+                break
+        raise ImportError(f"Failed to import module {module_path[0]}: {e}")
 ''')])
     import workflows.context.serializers
     load_patched("workflows.events", f"{W}/events.py", [(
@@ -63,10 +59,9 @@ e = MyStop(y=3, foo=2, result=[1]); b = s.deserialize(s.serialize(e)); print(" M
 e = StopEvent(); print(" empty StopEvent dump:", e.model_dump())
 ev = WorkflowFailedEvent(step_name="s", exception=Outer.InnerErr("boom"), attempts=1, elapsed_seconds=0.0)
 b = s.deserialize(s.serialize(ev)); print(" nested exception:", type(b.exception).__qualname__, str(b.exception))
-from workflows.runtime.types.results import AddWaiter
-a = AddWaiter(waiter_id="w", event_type=Outer.InnerEv)
+import workflows.events as E
 try:
-    b = AddWaiter.model_validate(a.model_dump(mode="json")); print(" nested event type:", b.event_type.__qualname__)
+    print(" nested event type:", E._deserialize_event_type(E._serialize_event_type(Outer.InnerEv)).__qualname__)
 except Exception as ex: print(" nested event type ERR", type(ex).__name__, str(ex)[:80])
 from workflows.context.utils import import_module_from_qualified_name as imp
 for q in ["workflows.events.StopEvent", "builtins.KeyError", "nope.Missing", "workflows.events.Missing", "workflows.events.StopEvent.nope", "x", ""]:
